@@ -13,6 +13,8 @@ import (
 
 var vsymC16Content = 4 // length of the signed content
 
+var vOIDSigningCertV2 = []byte{0x06, 0x0b, 0x2a, 0x86, 0x48, 0x86, 0xf7, 0x0d, 0x01, 0x09, 0x10, 0x02, 0x2f}
+
 var vOIDSMIMECap = []byte{0x06, 0x09, 0x2a, 0x86, 0x48, 0x86, 0xf7, 0x0d, 0x01, 0x09, 0x0f}
 
 // vThirdPartyBlob builds, with the reference encoder (not the library's), the SignedData a standard
@@ -20,7 +22,7 @@ var vOIDSMIMECap = []byte{0x06, 0x09, 0x2a, 0x86, 0x48, 0x86, 0xf7, 0x0d, 0x01, 
 // [, sMIMECapabilities] in DER SET OF order (by encoding; a short capability list sorts first); options: outer ContentInfo or bare SignedData,
 // NULL parameters present or absent, content attached or detached.
 func vThirdPartyBlob(signer crypto.Signer, certRaw, issuer, serial, content []byte, now time.Time,
-	smimecap []byte, outer, nullParams, attached bool) (blob, attrsInner []byte) {
+	smimecap, extra []byte, outer, nullParams, attached bool) (blob, attrsInner []byte) {
 	md := sha256.Sum256(content)
 	attrs := [][]byte{
 		vDER(0x30, vCat(vOIDContentTy, vDER(0x31, vOIDData))),
@@ -29,6 +31,10 @@ func vThirdPartyBlob(signer crypto.Signer, certRaw, issuer, serial, content []by
 	}
 	if smimecap != nil {
 		attrs = append(attrs, vDER(0x30, vCat(vOIDSMIMECap, vDER(0x31, vDER(0x30, smimecap)))))
+	}
+	if extra != nil {
+		// a further attribute the library does not know (as CAdES signingCertificateV2 would be)
+		attrs = append(attrs, vDER(0x30, vCat(vOIDSigningCertV2, vDER(0x31, vDER(0x30, extra)))))
 	}
 	attrsInner = vSetOf(attrs...) // DER producers emit the SET OF sorted (X.690 §11.6)
 	d := sha256.Sum256(vDER(0x31, attrsInner))
@@ -71,8 +77,12 @@ func VC16_ThirdParty() {
 	if capLen != 0 {
 		smimecap = vsym.BytesN("smimecap.body", capLen)
 	}
+	var extra []byte
+	if vsym.Bool("extra.attr") {
+		extra = vsym.BytesN("extra.body", 20)
+	}
 	outer, nullParams, attached := vsym.Bool("outer"), vsym.Bool("null"), vsym.Bool("attached")
-	blob, attrsInner := vThirdPartyBlob(signer, cert.Raw, cert.RawIssuer, serial, content, time.Now().UTC(), smimecap, outer, nullParams, attached)
+	blob, attrsInner := vThirdPartyBlob(signer, cert.Raw, cert.RawIssuer, serial, content, time.Now().UTC(), smimecap, extra, outer, nullParams, attached)
 
 	p, err := ParsePKCS7(blob)
 	vsym.Assert(err == nil, "a third-party SignedData parses")
